@@ -1,6 +1,8 @@
 ----------------------------- MODULE Trace_Server -----------------------------
 (* Trace validation for spec/Server.tla: each ndjson line is one execution of  *)
-(* the real server4 / server6 Serve loop over a scripted connection.           *)
+(* the real server4 / server6 server over a scripted connection, with one or   *)
+(* two goroutines running Serve (field "loops"; Loops = {1, 2} in the cfg, the  *)
+(* second loop stays idle in single-loop executions).                          *)
 EXTENDS Server, Json, IOUtils
 
 Traces == ndJsonDeserialize(IOEnv.VH_TRACE)
@@ -8,41 +10,47 @@ VARIABLES k, l, bad
 tvars == <<vars, k, l, bad>>
 Ev == Traces[k].ev
 E == Ev[l]
+Active == 1..Traces[k].loops
 
 TInit == k \in 1..Len(Traces) /\ l = 1 /\ bad = FALSE /\ Init
 
 \* the peer rule depends on the protocol of trace k (V4 is a constant of Server.tla: one TLC run per protocol)
 ForThisRun == Traces[k].v4 = V4
 
-HIndex(id) == CHOOSE h \in DOMAIN spawned : spawned[h].id = id
-
-\* ParseFail has no observable event of its own: the next ReadFrom call shows it
-FailThenCall == /\ pc = "parse" /\ cur.kind \in {"undec", "empty"} /\ ~StopOnParseError
-                /\ pc' = "blocked"
-                /\ UNCHANGED <<net, narr, cur, reads, spawned, closed, ret>>
+\* ParseFail has no observable event of its own: the loop's next ReadFrom call shows it
+FailThenCall(lp) == /\ pc[lp] = "parse" /\ cur[lp].kind \in {"undec", "empty"} /\ ~StopOnParseError
+                    /\ pc' = [pc EXCEPT ![lp] = "blocked"]
+                    /\ UNCHANGED <<net, narr, cur, reads, spawned, closed, ret>>
 
 Consume ==
     /\ l <= Len(Ev)
     /\ CASE E.a = "Arrive" -> Arrive(E.kind, E.sender, E.port) /\ E.id = narr + 1
-         [] E.a = "ReadCall" -> CallRead \/ FailThenCall
-         [] E.a = "Read" -> Read /\ cur'.id = E.id
-         [] E.a = "Spawn" -> /\ Spawn
-                             /\ E.id = cur.id /\ E.peer = PeerOf(cur)
+         [] E.a = "ReadCall" -> E.lp \in Active /\ (CallRead(E.lp) \/ FailThenCall(E.lp))
+         [] E.a = "Read" -> E.lp \in Active /\ Read(E.lp) /\ cur'[E.lp].id = E.id
+         [] E.a = "Spawn" -> \E lp \in Active :
+                             /\ Spawn(lp)
+                             /\ E.id = cur[lp].id /\ E.peer = PeerOf(cur[lp])
                              /\ E.mh = E.sh                     \* the message is the decoding of this datagram
          [] E.a = "Finish" -> /\ \E h \in DOMAIN spawned : spawned[h].id = E.id /\ HandlerFinish(h)
                               /\ E.mh = E.sh                    \* ... and still is after later reads
          [] E.a = "Close" -> CloseCall
-         [] E.a = "Return" -> IF pc = "blocked" THEN ReadClosed /\ E.ret = "closed"
-                              ELSE pc = "returned" /\ E.ret = ret /\ UNCHANGED vars
-         [] E.a = "End" -> /\ pc = "returned" /\ \A h \in DOMAIN spawned : spawned[h].done
+         [] E.a = "Return" -> /\ E.lp \in Active
+                              /\ IF pc[E.lp] = "blocked" THEN ReadClosed(E.lp) /\ E.ret = "closed"
+                                 ELSE IF pc[E.lp] = "failed" THEN ReadErrReturn(E.lp) /\ E.ret = "readerr"
+                                 ELSE pc[E.lp] = "returned" /\ E.ret = ret[E.lp] /\ UNCHANGED vars
+         [] E.a = "End" -> /\ \A lp \in Active : pc[lp] = "returned"
+                           /\ \A h \in DOMAIN spawned : spawned[h].done
                            /\ Len(reads) = narr \/ closed
                            /\ UNCHANGED vars
          [] OTHER -> FALSE
     /\ l' = l + 1 /\ k' = k /\ bad' = FALSE
 
 Chk(name, P) == P \/ PrintT(<<"INVARIANT", name, Traces[k].id, l - 1>>)
+\* one loop dispatches in read order
+OrderedWhenSingle == Traces[k].loops = 1 => \A g, h \in DOMAIN spawned : g < h => spawned[g].id < spawned[h].id
 InvOK == bad \/ /\ Chk("ExactlyOnce", ExactlyOnce) /\ Chk("PeerRule", PeerRule)
                 /\ Chk("OwnMessage", OwnMessage) /\ Chk("ReturnOnlyOnError", ReturnOnlyOnError)
+                /\ Chk("OrderedWhenSingle", OrderedWhenSingle)
 
 Reject == /\ ~bad /\ l <= Len(Ev)
           /\ PrintT(<<"MISMATCH", Traces[k].id, l>>)
